@@ -14,24 +14,27 @@ CHECKS = {
         'attributes, unknown namespaces, duplicated / removed / re-nested subtrees, truncation, byte flips, junk, encoding declarations, '
         'BOMs); every mutant goes through 7 API calls via BytesIO: each must return or raise a library exception, and lax-mode calls '
         'must not raise at all for a well-formed document. Thorough adds three atheris campaigns (empty and seeded corpus) on the same '
-        'target with the oracle inside. Depth / element limits are swept at limit-1, limit, limit+1 (eager and lazy). Crashes are '
+        'target with the oracle inside. Depth / element limits are swept at limit-1, limit, limit+1 (eager and lazy, with comments / PIs '
+        'interleaved); every built-in and 9 facet-restricted types meet huge lexical forms. Crashes are '
         'bucketed by call site; two buckets are listed known findings.',
         'trusted: ElementTree well-formedness as the notion of "well-formed"; watchdog expiry = inconclusive',
         'DESIGN.md section 3 C11'),
     'C18': (
-        'controlled-scheduler interleaving exploration (seeded, call granularity, cooperative locks) + free-running stress',
+        'controlled-scheduler interleaving exploration (seeded random schedules + systematic single-preemption at every shallow point of build(); cooperative locks) + free-running stress',
         'For 4 schema sources, Hypothesis draws schedule seeds, 2-4 threads, switch probabilities and per-thread call plans; all '
         'threads race build() of one unbuilt schema object and then validate / decode documents; a baton-passing scheduler switches '
         'threads at function calls inside the package (sys.settrace) and at contended cooperative locks. Per-thread results must equal '
         'the sequential baseline, component identities must not change after any thread\'s build() returned (built once), and the final '
-        'signature must equal a sequential build\'s. A free-running tier with switch interval 1e-6 complements it. Refutes only.',
+        'signature must equal a sequential build\'s. A systematic tier preempts the building thread once at every line of '
+        'XsdGlobals.build() and every call of depth <= 2 (thorough 3) below it and lets a second thread build and use the schema. A free-running tier with switch interval 1e-6 complements it. Refutes only.',
         'trusted: sequential run as reference; no claim about preemption inside C code beyond the free-running tier',
         'DESIGN.md section 3 C18'),
     'C14': (
         'metamorphic soundness testing of accepted restrictions with exact language inclusion as counter-example finder',
         'Hypothesis base content models x systematic derivation candidates (all single-node occurrence changes, drops, additions, '
         'branch picks, renames, wildcard<->element) directly and through xs:redefine, Hypothesis facet pairs over boundary pools, '
-        'and Hypothesis attribute-use / wildcard pairs over all subsets of a name pool; whenever the library accepts the schema, no '
+        'and Hypothesis attribute-use / wildcard pairs over all subsets of a name pool, plus enumerated small-scope bases, all group-prohibiting '
+        'candidates and all ordered wildcard-kind pairs; whenever the library accepts the schema, no '
         'instance may be valid for the derived and invalid for the base type: counter-example words come from exact inclusion on '
         'the product automaton and must be confirmed by the library\'s own two verdicts. Soundness only (completeness is counted).',
         'trusted: vf/oracles/cm.py inclusion; library verdicts on both types confirm each counter-example (no C01 defect is misfiled)',
@@ -51,8 +54,9 @@ CHECKS = {
         'validation_hook saw governing the element (schemas reuse one local name with different types in different parents); '
         'decode(path=p) must equal the sub-tree(s) of the full decoding; on damaged documents iter_errors(path=p) and '
         'iter_errors(max_depth=k) must equal the full-run errors located in the selected part / above the cut; decoded data under '
-        'max_depth=k keeps exactly the nodes above the cut.',
-        'trusted: the full run as reference; identity-constraint errors excluded from partial comparisons; max_depth=0 not asserted',
+        'max_depth=k keeps exactly the nodes above the cut. Target namespaces vary under one prefix between cases; a 3-level family with '
+        'unique / key constraints on ancestors asserts identity errors of partial runs whenever the path keeps constraint scopes whole.',
+        'trusted: the full run as reference; identity-constraint errors excluded from partial comparisons on docgen documents; max_depth=0 not asserted',
         'DESIGN.md section 3 C20'),
     'C17': (
         'Hypothesis-generated namespace nestings against an independent namespace resolver; round trip; mapper law',
@@ -127,7 +131,8 @@ CHECKS = {
         'catalogue cross product + Hypothesis mutation and random restriction chains against an independent datatype reference',
         'All built-in atomic/list types of both XSD versions x a 260-entry boundary catalogue (exhaustive), Hypothesis '
         'one-to-three-character mutants of catalogue entries, Hypothesis restriction chains (two levels; bounds, digits, '
-        'length family, enumeration, pattern, whiteSpace), lists and unions: acceptance through the type object, an element '
+        'length family, enumeration, pattern, whiteSpace), lists and unions, and documents holding several values of different '
+        'pattern-restricted unions (each judged by its own facets, whatever precedes it): acceptance through the type object, an element '
         'and an attribute, the decoded Python value under decimal_type/datetime_types/binary_types, and the '
         'encode(decode(t)) round trip are compared with a reference written from XSD Part 2. Cells where the '
         'recommendation is loose are "unspecified" and never assert.',
